@@ -112,8 +112,19 @@ func (r *UnitRun) evalExpr(st *State, e ast.Expr) Val {
 		if s.Cap != "" {
 			s.Cap = sub(s.Cap, lo)
 		}
+		parentView, parentOf := s.View, s.viewOf
 		s.Off = add(s.Off, lo)
 		s.Len = sub(hi, lo)
+		s.View, s.viewOf = "", ""
+		if _, lit := isIntLit(s.Off); !lit {
+			r.addView(st, &s, "sub")
+			if parentView != "" && parentOf == s.viewOf {
+				// also relative to the parent's view, so that facts stated over the parent window carry over by plain matching
+				qcount++
+				k := fmt.Sprintf("k!q%d", qcount)
+				st.assume(fmt.Sprintf("(forall ((%s Int)) (! (= (select %s %s) (select %s (+ %s %s))) :pattern ((select %s %s))))", k, s.View, k, parentView, lo, k, s.View, k))
+			}
+		}
 		return Val{K: KSlice, S: &s, Go: base.Go}
 	case *ast.SelectorExpr:
 		if sel, ok := r.info.Selections[e]; ok {
@@ -520,6 +531,8 @@ func (r *UnitRun) boxFn(src, dst string) string {
 	d.declare(fn, fmt.Sprintf("(declare-fun %s (%s) %s)\n(declare-fun un%s (%s) %s)\n(declare-fun is%s (%s) Bool)", fn, src, dst, fn, dst, src, fn, dst))
 	// unit level, on demand: the axioms
 	ax := fmt.Sprintf("(assert (forall ((x %s)) (! (and (is%s (%s x)) (= (un%s (%s x)) x)) :pattern ((%s x)))))", src, fn, fn, fn, fn, fn)
+	// a value of the boxed kind is the box of its content (interfaces holding this dynamic type and nothing else)
+	ax += fmt.Sprintf("\n(assert (forall ((d %s)) (! (=> (is%s d) (= (%s (un%s d)) d)) :pattern ((un%s d)))))", dst, fn, fn, fn, fn)
 	if dst != "Data" {
 		ax += fmt.Sprintf("\n(assert (forall ((x %s)) (! (not (= (%s x) nil_%s)) :pattern ((%s x)))))", src, fn, dst, fn)
 	}
